@@ -196,7 +196,8 @@ class World:
             from ndn.types import ValidResult as VR
             if v == 5:
                 raise TimeoutError()
-            return [VR.FAIL, VR.TIMEOUT, VR.SILENCE, VR.PASS, VR.ALLOW_BYPASS][v]
+            # the model numbers the verdicts in the order of the enum values (Proofs/ValidResultAgree.v)
+            return sorted(VR, key=lambda m: m.value)[v]
         return V1_VALUES[v]
 
     # -- events -----------------------------------------------------------------------------
